@@ -73,6 +73,13 @@ def _oblige_index(interp, st, ok, node, what="index"):
 def getitem(interp, st, base, idx, node=None):
     M = _M()
     I = _I()
+    if type(base).__name__ == "RecDictView":
+        if isinstance(idx, str) and idx in base.rec.fields:
+            return base.rec.fields[idx]
+        if isinstance(idx, str):
+            # an attribute stored by an earlier call: an unknown object
+            return z3.Const(V.fresh_name(f"attr_{idx}"), I.OBJ_SORT)
+        raise Outside("obj.__dict__[...] with a non-constant name", node)
     if isinstance(base, I.ObjMethod):
         base = base.value
     if I.is_obj(base):
